@@ -11,6 +11,7 @@ from ..ir import load_program, strip_casts
 from ..cfg import cfg_of
 from ..flow import Paths, derived_values, null_tests
 from .. import pe, own
+from ..strpe import StrPE
 from .c13 import _member_name
 from .c18 import _failure_only
 
@@ -26,6 +27,7 @@ def run(chk):
     r4(chk, prog, m)
     r5(chk, prog, m)
     r6(chk, prog, m)
+    r7(chk, prog, m)
     chk.undecided_clauses += [
         "agreement with an RFC 6901 evaluator on generated trees and pointers (needs execution)",
         "json_pointer_getf/setf formatting (vasprintf on data)",
@@ -409,3 +411,84 @@ def _recurrence_mul(f, phi):
         if u.op == "shl" and u.ops[1].kind == "int" and u.ops[1].v >= 1:
             return u
     return None
+
+
+# ---------------------------------------------------------------------------
+# R7 the unescape routine computes RFC 6901's decoding on every token over the relevant characters
+class _UnescPE(StrPE):
+    def __init__(self, prog, token):
+        super().__init__(prog, max_leaves=50, max_steps=100000)
+        self.token = token
+        self.loop_widen = 1000
+        self.max_visits = 64
+
+    def should_inline(self, g, instr):
+        return g.internal
+
+    def init_mem(self, state, base, path, t):
+        if base == "token":
+            el, fl = pe.fields_of(path)
+            if not fl and isinstance(el, int) and 0 <= el <= len(self.token):
+                b = (self.token + b"\0")[el]
+                return pe.C(b if b < 128 else b - 256)
+        return pe.TOP
+
+    def call_model(self, state, frame, i, args):
+        return self.libc_string_model(state, frame, i, args)
+
+
+def _unescape_fn(m):
+    """the routine that turns a reference token into a member name: the function whose callees replace "~1" and "~0" """
+    for f in m.functions.values():
+        if f.is_decl:
+            continue
+        lits = [_member_name(f, i) for i in f.instrs() if i.op == "call"]
+        lits = [l for l in lits if l]
+        if "'~1'" in lits and "'~0'" in lits and len(f.params) == 1:
+            return f
+    return None
+
+
+def r7(chk, prog, m):
+    from itertools import product
+    rid = "C12.R7"
+    chk.rule(rid, "the token unescape routine, partially evaluated on every token of length 0..5 over the characters '~' '0' '1' '/' 'a' "
+                  "(all that the routine distinguishes), yields RFC 6901's decoding: each \"~1\" of the token becomes '/', then each "
+                  "\"~0\" becomes '~', every escape is decoded once and produced characters are never decoded again")
+    f = _unescape_fn(m)
+    chk.require(f is not None, "no function of json_pointer.c replaces both \"~1\" and \"~0\" in a token")
+    chk.touched(f)
+    n = 0
+    bad = None
+    und = 0
+    for ln in range(0, 6):
+        for tup in product(b"~01/a", repeat=ln):
+            tok = bytes(tup)
+            want = tok.replace(b"~1", b"/").replace(b"~0", b"~")
+            h = _UnescPE(prog, tok)
+            st = pe.State()
+            leaves = h.run(f, [("ptr", "token", ())], st)
+            n += 1
+            got = set()
+            for lf in leaves:
+                if lf.kind != "ret":
+                    got.add(None)
+                    continue
+                got.add(h._cstr(lf.state, ("ptr", "token", ())))
+            if len(got) != 1 or None in got:
+                und += 1
+                continue
+            (g,) = got
+            if g != want and bad is None:
+                bad = (tok, g, want)
+    sig = "unescape(token)"
+    if bad is not None:
+        tok, g, want = bad
+        chk.refuted(rid, f.name, sig, f.entry.term.locstr(),
+                    "the token %r is unescaped to %r; RFC 6901 section 4 gives %r" % (tok.decode(), g.decode("latin-1"), want.decode()),
+                    {"token": tok.decode(), "got": g.decode("latin-1"), "rfc6901": want.decode()})
+    elif und:
+        chk.undecided(rid, f.name, sig, f.entry.term.locstr(), "%d tokens could not be evaluated" % und)
+    else:
+        chk.proven(rid, f.name, sig, f.entry.term.locstr(), "%d tokens decoded as RFC 6901 requires" % n)
+    chk.floor(rid, n, 3000, "tokens evaluated")
